@@ -68,15 +68,28 @@ def readLabel (s : Bytes) : Option Ident :=
 inductive Operand where
   | loc (i : Ident)
   | const (c : Const)
+  | glob (n : Bytes)          -- a named global variable or function `@name` (resolved against the module: M-Whole)
   deriving Inhabited
 
 def operandString (useHex : Int → Bool) (t : Ty) : Operand → Bytes
   | .loc i => identString i
   | .const c => constIdent useHex t c
+  | .glob n => Enc.globalName n
+
+/-- `@` + identifier body; only NAMED globals are in the fragment -/
+def readGlobal (s : Bytes) : Option (Bytes × Bytes) :=
+  match s with
+  | 64 :: r =>
+    (match takeBody r with
+     | some (tok, rest) => (match Enc.decodeIdentBody tok with | .name n => some (n, rest) | _ => none)
+     | none => none)
+  | _ => none
 
 def readOperand (t : Ty) (s : Bytes) : Option (Operand × Bytes) :=
   if s.head? == some 37 then
     (match readIdent s with | some (i, r) => some (.loc i, r) | none => none)
+  else if s.head? == some 64 then
+    (match readGlobal s with | some (n, r) => some (.glob n, r) | none => none)
   else
     (match parseConst (s.length + 1) t s with | some (c, r) => some (.const c, r) | none => none)
 
@@ -93,6 +106,8 @@ inductive Slot where
   | nums                 -- `, 1, 0` (the index path of extractvalue / insertvalue); only as the last slot of a row
   | align                -- nothing or `, align N`; only as the last slot of a row
   | tyvals               -- `, T V` zero or more times (the indices of getelementptr); only as the last slot of a row
+  | callee               -- the callee of a call: a local `%x` or a global `@f` (argument: `.val`); followed by the argument list only
+  | cargs                -- `(T V, T V, …)` (the arguments of a call; argument: `.tyvals`); only as the last slot of a row
 
 inductive Arg where
   | ty (t : Ty)
@@ -201,7 +216,10 @@ def rows : List Row := [
   ⟨true, [101, 120, 116, 114, 97, 99, 116, 118, 97, 108, 117, 101, 32], .void, [.tyval, .nums], .aggElem, false⟩,
   ⟨true, [105, 110, 115, 101, 114, 116, 118, 97, 108, 117, 101, 32], .void, [.tyval, .lit sComma, .tyval, .nums], .first, false⟩,
   -- 73: getelementptr
-  ⟨true, [103, 101, 116, 101, 108, 101, 109, 101, 110, 116, 112, 116, 114, 32], .void, [.ty, .lit sComma, .tyval, .tyvals], .gep, false⟩
+  ⟨true, [103, 101, 116, 101, 108, 101, 109, 101, 110, 116, 112, 116, 114, 32], .void, [.ty, .lit sComma, .tyval, .tyvals], .gep, false⟩,
+  -- 74: call void (no result); 75: call T (a value; `T` is the return type written in the instruction and is not `void`)
+  ⟨false, [99, 97, 108, 108, 32, 118, 111, 105, 100, 32], .void, [.callee, .cargs], .none, false⟩,
+  ⟨true, [99, 97, 108, 108, 32], .void, [.ty, .lit [32], .callee, .cargs], .loadTy, false⟩
 ]
 
 def phisString (useHex : Int → Bool) (cur : Ty) : List (Operand × Ident) → Bytes
@@ -225,6 +243,12 @@ def tyvalsString (useHex : Int → Bool) : List (Ty × Operand) → Bytes
   | [] => []
   | (t, o) :: r => sComma ++ tyString t ++ [32] ++ operandString useHex t o ++ tyvalsString useHex r
 
+/-- the type at which the callee of a call is read: a pointer (the callee is never a constant in the fragment, so its pointee does not matter) -/
+def calleeTy : Ty := .ptr (.int 8) 0
+
+/-- `(T V, T V, …)`: the list `, T V…` without its first separator, in parentheses -/
+def cargsString (useHex : Int → Bool) (as : List (Ty × Operand)) : Bytes := [40] ++ (tyvalsString useHex as).drop 2 ++ [41]
+
 def printSlots (useHex : Int → Bool) : Ty → List Slot → List Arg → Bytes
   | _, [], _ => []
   | cur, .lit s :: fs, as => s ++ printSlots useHex cur fs as
@@ -238,6 +262,8 @@ def printSlots (useHex : Int → Bool) : Ty → List Slot → List Arg → Bytes
   | cur, .nums :: fs, .nums ks :: as => numsString ks ++ printSlots useHex cur fs as
   | cur, .align :: fs, .align a :: as => alignString a ++ printSlots useHex cur fs as
   | cur, .tyvals :: fs, .tyvals ixs :: as => tyvalsString useHex ixs ++ printSlots useHex cur fs as
+  | cur, .callee :: fs, .val o :: as => operandString useHex calleeTy o ++ printSlots useHex cur fs as
+  | cur, .cargs :: fs, .tyvals ixs :: as => cargsString useHex ixs ++ printSlots useHex cur fs as
   | _, _, _ => []
 
 /-- `[ V, %b ]` groups separated by `, ` -/
@@ -297,6 +323,23 @@ def readTyvals : Nat → Bytes → Option (List (Ty × Operand))
          | none => none)
       | _ => none
 
+/-- the callee of a call: `%x` or `@f` -/
+def readCallee (s : Bytes) : Option (Operand × Bytes) :=
+  if s.head? == some 37 then
+    (match readIdent s with | some (i, r) => some (.loc i, r) | none => none)
+  else if s.head? == some 64 then
+    (match readGlobal s with | some (n, r) => some (.glob n, r) | none => none)
+  else none
+
+/-- `(T V, T V, …)` up to the end of the line -/
+def readCargs (s : Bytes) : Option (List (Ty × Operand)) :=
+  match s with
+  | 40 :: r =>
+    if r == [41] then some []
+    else if r.getLast? == some 41 then readTyvals (r.length + 2) (sComma ++ r.dropLast)
+    else none
+  | _ => none
+
 def readSlots : Ty → List Slot → Bytes → Option (List Arg × Bytes)
   | _, [], s => some ([], s)
   | cur, .lit l :: fs, s =>
@@ -350,6 +393,20 @@ def readSlots : Ty → List Slot → Bytes → Option (List Arg × Bytes)
      | none => none)
   | cur, .tyvals :: fs, s =>
     (match readTyvals (s.length + 1) s with
+     | some ixs =>
+       (match readSlots cur fs [] with
+        | some (as, r') => some (.tyvals ixs :: as, r')
+        | none => none)
+     | none => none)
+  | cur, .callee :: fs, s =>
+    (match readCallee s with
+     | some (o, r) =>
+       (match readSlots cur fs r with
+        | some (as, r') => some (.val o :: as, r')
+        | none => none)
+     | none => none)
+  | cur, .cargs :: fs, s =>
+    (match readCargs s with
      | some ixs =>
        (match readSlots cur fs [] with
         | some (as, r') => some (.tyvals ixs :: as, r')
@@ -549,7 +606,19 @@ def defs (f : Func) : List Ident :=
 
 def operandUses : Operand → List Ident
   | .loc i => [i]
-  | .const _ => []
+  | _ => []
+
+def operandGlobs : Operand → List Bytes
+  | .glob n => [n]
+  | _ => []
+
+def argGlobs : Arg → List Bytes
+  | .tyval _ o => operandGlobs o
+  | .val o => operandGlobs o
+  | .retv (some (_, o)) => operandGlobs o
+  | .phis incs => incs.flatMap fun p => operandGlobs p.1
+  | .tyvals ixs => ixs.flatMap fun p => operandGlobs p.2
+  | _ => []
 
 def argUses : Arg → List Ident
   | .ty _ => []
@@ -634,6 +703,7 @@ def idxArg (p : Ty × Operand) : Gep.IdxArg :=
     | .const .undef => some .undef
     | .const (.vec es) => (match constInts es with | some vs => some (.vecInts vs) | none => some (.vecOther vl))
     | .const _ => some (.vecOther 1)
+    | .glob _ => some (.vecOther 1)
   ⟨c, vl, sc⟩
 
 def defTy (i : Inst) : Option Ty :=
@@ -665,22 +735,31 @@ def env (f : Func) : List (Ident × Ty) :=
 
 def lookup (e : List (Ident × Ty)) (i : Ident) : Option Ty := (e.find? (·.1 == i)).map (·.2)
 
-def retypeOperand (e : List (Ident × Ty)) (t : Ty) : Operand → Ty
+/-- the global variables and functions of the module with the type of a reference to them (empty for a function definition on its own) -/
+abbrev GEnv := List (Bytes × Ty)
+
+def lookupG (ge : GEnv) (n : Bytes) : Option Ty := (ge.find? (·.1 == n)).map (·.2)
+
+def retypeOperand (ge : GEnv) (e : List (Ident × Ty)) (t : Ty) : Operand → Ty
   | .loc i => (lookup e i).getD t
   | .const _ => t
+  | .glob n => (lookupG ge n).getD t
 
-/-- asm/value.go irValue: the type written in front of a local operand is discarded; the operand prints at the type of its definition -/
-def retypeArg (e : List (Ident × Ty)) : Arg → Arg
-  | .tyval t o => .tyval (retypeOperand e t o) o
-  | .retv (some (t, o)) => .retv (some (retypeOperand e t o, o))
-  | .tyvals ixs => .tyvals (ixs.map fun p => (retypeOperand e p.1 p.2, p.2))
+/-- asm/value.go irValue: the type written in front of a local or global operand is discarded; the operand prints at the type of its definition -/
+def retypeArg (ge : GEnv) (e : List (Ident × Ty)) : Arg → Arg
+  | .tyval t o => .tyval (retypeOperand ge e t o) o
+  | .retv (some (t, o)) => .retv (some (retypeOperand ge e t o, o))
+  | .tyvals ixs => .tyvals (ixs.map fun p => (retypeOperand ge e p.1 p.2, p.2))
   | a => a
 
-def retypeInst (e : List (Ident × Ty)) (i : Inst) : Inst := { i with args := i.args.map (retypeArg e) }
+def retypeInst (ge : GEnv) (e : List (Ident × Ty)) (i : Inst) : Inst := { i with args := i.args.map (retypeArg ge e) }
 
-def retype (f : Func) : Func :=
+def retypeIn (ge : GEnv) (f : Func) : Func :=
   let e := env f
-  { f with blocks := f.blocks.map fun b => { b with insts := b.insts.map (retypeInst e), term := retypeInst e b.term } }
+  { f with blocks := f.blocks.map fun b => { b with insts := b.insts.map (retypeInst ge e), term := retypeInst ge e b.term } }
+
+def globUses (f : Func) : List Bytes :=
+  f.blocks.flatMap fun b => (instsOf b).flatMap fun i => i.args.flatMap argGlobs
 
 def hasDupI : List Ident → Bool
   | [] => false
@@ -743,13 +822,41 @@ def typed (f : Func) : Bool :=
 
 /-- the parser on a function definition (asm/local.go): scaffold and AssignIDs (nameless values are numbered, written IDs validated), duplicate
     definitions, undefined uses, label operands that are not blocks (asm/helper.go irBlock); then the operand types -/
-def translate (f : Func) : Option Func :=
+def calleeOf (i : Inst) : Option Operand :=
+  i.args.findSome? fun a => match a with | .val o => some o | _ => none
+
+def isFuncPtr : Ty → Bool
+  | .ptr (.func _ _ false) _ => true
+  | _ => false
+
+/-- ir/inst_other.go InstCall.Sig: the callee of a call is a pointer to a function (printing panics otherwise); a variadic callee (its signature
+    is printed instead of the return type) is outside the fragment -/
+def callsOK (ge : GEnv) (f : Func) : Bool :=
+  let e := env f
+  f.blocks.all fun b => (instsOf b).all fun i =>
+    if i.row == 74 || i.row == 75 then
+      match calleeOf i with
+      | some (.loc x) => (match lookup e x with | some t => isFuncPtr t | none => true)
+      | some (.glob n) => (match lookupG ge n with | some t => isFuncPtr t | none => true)
+      | _ => true
+    else true
+
+def translateIn (ge : GEnv) (f : Func) : Option Func :=
   match Numbering.parseAssign (slotsOf f) with
   | .error => none
   | .ok l =>
     let g := fill f l
     if hasDupI (defs g) then none
-    else if (uses g).all (fun u => (defs g).contains u) && (labUses g).all (fun u => (blockDefs g).contains u) && typed g then some (retype g) else none
+    else if (uses g).all (fun u => (defs g).contains u) && (labUses g).all (fun u => (blockDefs g).contains u) && typed g &&
+        (globUses g).all (fun n => (ge.map (·.1)).contains n) && callsOK ge g then some (retypeIn ge g) else none
+
+/-- the type of a reference to a function: pointer to its signature (ir/func.go Type) -/
+def funcRefTy (f : Func) : Ty := .ptr (.func f.ret (TyList.ofList (f.params.map (·.1))) false) 0
+
+/-- a function definition on its own: the only global is the function itself -/
+def selfEnv (f : Func) : GEnv := [(f.name, funcRefTy f)]
+
+def translate (f : Func) : Option Func := translateIn (selfEnv f) f
 
 def parse (ls : List Bytes) : Option Func := (readFunc ls).bind translate
 
@@ -763,6 +870,7 @@ def identOKB : Ident → Bool
 def operandOKB : Operand → Bool
   | .loc i => identOKB i
   | .const c => cwf c
+  | .glob n => !n.isEmpty
 
 def isVoid : Ty → Bool
   | .void => true
@@ -792,13 +900,22 @@ def matchesB : List Slot → List Arg → Bool
   | .nums :: fs, .nums _ :: as => matchesB fs as
   | .align :: fs, .align _ :: as => matchesB fs as
   | .tyvals :: fs, .tyvals _ :: as => matchesB fs as
+  | .callee :: fs, .val o :: as => (match o with | .const _ => false | _ => true) && matchesB fs as
+  | .cargs :: fs, .tyvals _ :: as => matchesB fs as
   | _, _ => false
+
+def sVoidSp : Bytes := [118, 111, 105, 100, 32]        -- "void "
+def startsVoid (s : Bytes) : Bool := (TyParse.stripPrefix sVoidSp s).isSome
+
+/-- the return type written in a value call does not start with `void ` (`call void …` is row 74; a type such as `void ()*` would be read as that row) -/
+def callTyOK (i : Inst) : Bool :=
+  i.row != 75 || (match i.args with | .ty t :: _ => !startsVoid (tyString t ++ [32]) | _ => false)
 
 def instOKB (i : Inst) : Bool :=
   match rows[i.row]? with
   | none => false
   | some r => matchesB r.slots i.args && i.args.all argOKB && (r.hasRes == i.res.isSome) &&
-      (match i.res with | some id => identOKB id | none => true)
+      (match i.res with | some id => identOKB id | none => true) && callTyOK i
 
 def blockOKB (b : Block) : Bool :=
   identOKB b.label && b.insts.all (fun i => instOKB i && !isTerm i) && instOKB b.term && isTerm b.term
@@ -808,21 +925,29 @@ def wfSyn (f : Func) : Bool :=
   !f.name.isEmpty && f.params.all (fun p => identOKB p.2) && !f.blocks.isEmpty && f.blocks.all blockOKB
 
 /-- the type written in front of every local operand is the type of that operand's definition -/
-def consistentArg (e : List (Ident × Ty)) : Arg → Bool
-  | .tyval t (.loc i) => (match lookup e i with | some t' => equal t' t | none => true)
-  | .retv (some (t, .loc i)) => (match lookup e i with | some t' => equal t' t | none => true)
-  | .tyvals ixs => ixs.all fun p => (match p.2 with | .loc i => (match lookup e i with | some t' => equal t' p.1 | none => true) | _ => true)
+def consistentOp (ge : GEnv) (e : List (Ident × Ty)) (t : Ty) : Operand → Bool
+  | .loc i => (match lookup e i with | some t' => equal t' t | none => true)
+  | .glob n => (match lookupG ge n with | some t' => equal t' t | none => true)
+  | .const _ => true
+
+def consistentArg (ge : GEnv) (e : List (Ident × Ty)) : Arg → Bool
+  | .tyval t o => consistentOp ge e t o
+  | .retv (some (t, o)) => consistentOp ge e t o
+  | .tyvals ixs => ixs.all fun p => consistentOp ge e p.1 p.2
   | _ => true
 
-def consistent (f : Func) : Bool :=
-  f.blocks.all fun b => (instsOf b).all fun i => i.args.all (consistentArg (env f))
+def consistent (ge : GEnv) (f : Func) : Bool :=
+  f.blocks.all fun b => (instsOf b).all fun i => i.args.all (consistentArg ge (env f))
 
 /-- semantic well-formedness: every identifier defined once, every use defined, unnamed values numbered as LLVM numbers them, operand types
     consistent with the definitions -/
-def wfSem (f : Func) : Bool :=
+def wfSemIn (ge : GEnv) (f : Func) : Bool :=
   !hasDupI (defs f) && (uses f).all (fun u => (defs f).contains u) && (labUses f).all (fun u => (blockDefs f).contains u) &&
-    LLVMSpec.agreesFrom 0 (slotsOf f) && consistent f && typed f
+    LLVMSpec.agreesFrom 0 (slotsOf f) && consistent ge f && typed f && (globUses f).all (fun n => (ge.map (·.1)).contains n) && callsOK ge f
 
+def wfSem (f : Func) : Bool := wfSemIn (selfEnv f) f
+
+def wfIn (ge : GEnv) (f : Func) : Bool := wfSyn f && wfSemIn ge f
 def wf (f : Func) : Bool := wfSyn f && wfSem f
 
 
